@@ -333,7 +333,7 @@ func staticKeyPrefix(addr ssa.Value) string {
 	case *ssa.IndexAddr:
 		return "M|" + typeKey(elemTypeOfIndexable(a.X.Type())) + "|"
 	case *ssa.Global:
-		return "M|" + typeKey(a.Type().(*types.Pointer).Elem()) + "|"
+		return "M|cell:" + typeKey(a.Type().(*types.Pointer).Elem()) + "|"
 	default:
 		if pt, ok := addr.Type().Underlying().(*types.Pointer); ok {
 			switch kindOf(pt.Elem()) {
@@ -342,7 +342,7 @@ func staticKeyPrefix(addr ssa.Value) string {
 			case KArr:
 				return "M|" + typeKey(pt.Elem().Underlying().(*types.Array).Elem()) + "|"
 			default:
-				return "M|" + typeKey(pt.Elem()) + "|"
+				return "M|cell:" + typeKey(pt.Elem()) + "|"
 			}
 		}
 	}
@@ -1170,6 +1170,10 @@ func (fx *FnCtx) checkFrameStore(st *State, l *Loc) {
 			}
 		case "mem", "cell":
 			if l.Mem && strings.HasPrefix(prefix, strings.TrimSuffix(t.key, "|")) {
+				alts = append(alts, tEq(l.Ref, t.ref))
+			}
+		case "map":
+			if l.Mem && strings.HasPrefix(prefix, "M|"+t.key) {
 				alts = append(alts, tEq(l.Ref, t.ref))
 			}
 		}
